@@ -41,6 +41,11 @@ def run(ck, tier):
     _id(ck, p, byk)
     _accept(ck, p, byk)
     _dialect(ck, p, byk)
+    # the dictionary SpellCheck asks is, in every front end, a MergedDictionary: a word is "in the dictionary"
+    # when ANY part lists that spelling
+    from . import c15
+    ck.rule("R-C06-union", "the merged dictionary answers contains_exact_word / contains_word as the union of its parts: each folds the same-named query over self.children (rule instances of R-C15-merged) - otherwise a spelling the user added is still reported when an earlier part knows the same letters in another capitalisation")
+    c15._merged(ck, p, c15.dictionary_impls(p), rule="R-C06-union", only=["contains_word", "contains_exact_word"])
 
 
 def _id(ck, p, byk):
